@@ -34,13 +34,17 @@ def relax_models(rep: Report, tier: str, wd):
     maxk = 6 if tier == "quick" else 9
     jobs.append((maxk, "{" + ", ".join(map(str, range(110, 129))) + "}", 1, "cascade"))
     jobs.append((maxk, "{" + ", ".join(map(str, range(238, 258))) + "}", 2, "cascade"))
+    # a free-variable operand that crosses the one-byte boundary once the number of cell variables is added
+    jobs.append((2, "{0, 1, 254, 255, 256, 257}", 1, "freeshift"))
+    jobs.append((2, "{0, 1, 254, 255, 256, 257}", 2, "freeshift"))
 
     def mc(job):
         nb, pads, scale, fam = job
         cfg = wd / f"MC_Relax_{fam}_{nb}_{scale}.cfg"
         cfg.write_text(f"SPECIFICATION Spec\nCONSTANTS\n  NB = {nb}\n  Pads = {pads}\n  Scale = {scale}\n  Family = \"{fam}\"\n"
                        f"  MaxK = {nb}\n  Emit = TRUE\n"
-                       "INVARIANT PassBound\nINVARIANT JumpsLand\nINVARIANT EmitDone\nPROPERTY Terminates\nPROPERTY SizesGrow\n")
+                       "INVARIANT PassBound\nINVARIANT JumpsLand\nINVARIANT JumpsLandFinal\nINVARIANT EmitDone\n"
+                       "PROPERTY Terminates\nPROPERTY SizesGrow\n")
         return job, run_tlc("MC_Relax", str(cfg), workers=max(2, NCPU // len(jobs)), timeout=3000, heap="8g")
 
     with ThreadPoolExecutor(max_workers=len(jobs)) as ex:
@@ -52,7 +56,7 @@ def relax_models(rep: Report, tier: str, wd):
             for s in tlc_prints(r.out):
                 pads_, jumps, passes, final = json.loads(tla_unescape(s))
                 n += 1
-                graphs[scale].append({"id": f"g:{fam[0]}{nb}:{scale}:{n}", "pads": pads_, "jumps": jumps, "passes": passes,
+                graphs[scale].append({"id": f"g:{fam[0]}{nb}:{scale}:{n}", "family": fam, "pads": pads_, "jumps": jumps, "passes": passes,
                                       "jumpargs": [x[0] for x in final]})
             rep.cov.setdefault("model_graphs", {})[f"{fam},{nb},scale={scale}"] = n
             if n == 0:
@@ -61,11 +65,11 @@ def relax_models(rep: Report, tier: str, wd):
 
 
 def nontrivial(g):
-    return g["passes"] > 1 or any(a > 255 for a in g["jumpargs"])
+    return g["passes"] > 1 or any(a > 255 for a in g["jumpargs"]) or g.get("family") == "freeshift"
 
 
 def deep(g):
-    return g["passes"] > 3
+    return g["passes"] > 3 or g.get("family") == "freeshift"
 
 
 def run(tier: str, rep: Report):
@@ -79,6 +83,28 @@ def run(tier: str, rep: Report):
         "'no line'); positional-only parameters only from 3.8",
     ]
     graphs = relax_models(rep, tier, wd)
+    # line programs (MC_Lines): per-instruction lines with forward/backward jumps around every split boundary
+    lineprogs = {}
+    for asm in ("a39", "a310"):
+        lcfg = wd / f"MC_Lines_{asm}_synth.cfg"
+        lcfg.write_text(f"SPECIFICATION Spec\nCONSTANTS\n  Asm = \"{asm}\"\n  MaxRuns = {2 if tier == 'quick' else 3}\n"
+                        f"  Sizes = {{1, 2, 128}}\n  LineVals <- LV_quick{'_nl' if asm == 'a310' else ''}\n  Removal = FALSE\n"
+                        "  Emit = TRUE\nINVARIANT C10Model\n")
+        rl_ = run_tlc("MC_Lines", str(lcfg), workers=8, timeout=1800, extra=["-continue"], heap="6g")
+        rl_.errors = [e for e in rl_.errors if "behavior up to this point" not in e]
+        rep.add_tlc(rl_, f"MC_Lines[{asm}, line programs for synthesis]")
+        ps = []
+        seen = set()
+        for s_ in tlc_prints(rl_.out):
+            o = json.loads(tla_unescape(s_))
+            key = json.dumps(o[1])
+            if key not in seen:
+                seen.add(key)
+                ps.append({"id": f"l:{asm}:{len(ps)}", "prog": o[1]})
+        lineprogs[asm] = ps
+        if not ps:
+            rep.machinery_error(f"MC_Lines[{asm}] emitted nothing for line synthesis: {rl_.out[-300:]}")
+    rep.cov["line_programs"] = {a: len(v) for a, v in lineprogs.items()}
     # inconsistent position overrides (gaps, collisions): MC_Overrides
     ocfg = wd / "MC_Overrides.cfg"
     ocfg.write_text(f"SPECIFICATION Spec\nCONSTANTS\n  MaxInstr = 3\n  MaxOvr = {3 if tier == 'quick' else 4}\n  Emit = TRUE\nINVARIANT OverridesSafe\n")
@@ -115,6 +141,12 @@ def run(tier: str, rep: Report):
                 f = str(wd / f"graphs-{v}-{k}.ndjson")
                 files.append(f)
                 jobs[v].append(("encode.graphs_to_file", {"cases": [dict(g, id=g["id"] + ":" + v) for g in ch], "path": f}))
+            lp = lineprogs["a310" if v == "310" else "a39"]
+            for ch in chunks(lp, 150):
+                k += 1
+                f = str(wd / f"lines-{v}-{k}.ndjson")
+                files.append(f)
+                jobs[v].append(("encode.lineprogs_to_file", {"cases": [dict(c, id=c["id"] + ":" + v) for c in ch], "path": f}))
             for ch in chunks(ovr_cases, 1000):
                 k += 1
                 f = str(wd / f"ovr-{v}-{k}.ndjson")
@@ -178,8 +210,8 @@ def run(tier: str, rep: Report):
     fails = df.validate(rep, files, "Trace_Encode")
 
     def keyfn(evid, clauses):
-        src = "graph" if evid.startswith("g:") else "overrides" if evid.startswith("o:") else ("normalized" if evid.endswith(":norm") else "decoded")
-        return f"{PID}/{'+'.join(sorted(set(c.split('.', 1)[1] for c in clauses)))}/{src}/ver{df.ver_of(evid) if evid[:2] not in ('g:', 'o:') else evid.split(':')[-1]}"
+        src = "graph" if evid.startswith("g:") else "overrides" if evid.startswith("o:") else "lineprog" if evid.startswith("l:") else ("normalized" if evid.endswith(":norm") else "decoded")
+        return f"{PID}/{'+'.join(sorted(set(c.split('.', 1)[1] for c in clauses)))}/{src}/ver{df.ver_of(evid) if evid[:2] not in ('g:', 'o:', 'l:') else evid.split(':')[-1]}"
 
     df.classify(rep, fails, PREFIX, PID, keyfn)
     rep.cov["model_agreement"]["note"] = "M.* = real encoder vs Encode.tla (units, tables, line table, header, every relaxation pass)"
